@@ -241,8 +241,8 @@ func g14AddNameUsed(r *Repo, rep *Report) {
 				if !ok || sel.Sel.Name != "Fun" {
 					return true
 				}
-				if nc, ok := st.Rhs[0].(*ast.CallExpr); ok && isPkgFunc(callee(info, nc), "go/ast", "NewIdent") && len(nc.Args) == 1 {
-					if id, ok := nc.Args[0].(*ast.Ident); ok && info.Uses[id] == nameObj {
+				if nameE, _ := replacementIdent(info, st.Rhs[0]); nameE != nil {
+					if id, ok := nameE.(*ast.Ident); ok && info.Uses[id] == nameObj {
 						reaches = true
 					}
 				}
